@@ -424,12 +424,81 @@ UNESCAPE_CASES = [
 ]
 
 
-def r_unescape(ctx):
+def rfc_unescape(lit):
+    """value of the text-literal content per RFC 8610 App. B / RFC 9682 (SESC, hexchar), or None when it is not derivable"""
+    out = []
+    i = 0
+    simple = {'"': '"', "/": "/", "\\": "\\", "b": "\b", "f": "\f", "n": "\n", "r": "\r", "t": "\t"}
+    hexd = "0123456789abcdefABCDEF"
+    while i < len(lit):
+        c = lit[i]
+        if c != "\\":
+            out.append(c)
+            i += 1
+            continue
+        if i + 1 >= len(lit):
+            return None
+        e = lit[i + 1]
+        if e in simple:
+            out.append(simple[e])
+            i += 2
+            continue
+        if e != "u":
+            return None
+        if lit[i + 2:i + 3] == "{":
+            j = lit.find("}", i + 3)
+            h = lit[i + 3:j] if j > 0 else ""
+            if j < 0 or not h or any(x not in hexd for x in h):
+                return None
+            v = int(h, 16)
+            if v > 0x10FFFF or 0xD800 <= v <= 0xDFFF:
+                return None            # hexscalar excludes surrogates; a braced escape never pairs
+            out.append(chr(v))
+            i = j + 1
+            continue
+        h = lit[i + 2:i + 6]
+        if len(h) != 4 or any(x not in hexd for x in h):
+            return None
+        v = int(h, 16)
+        i += 6
+        if 0xD800 <= v <= 0xDBFF:
+            l = lit[i + 2:i + 6]
+            if lit[i:i + 2] != "\\u" or len(l) != 4 or any(x not in hexd for x in l) or not (0xDC00 <= int(l, 16) <= 0xDFFF):
+                return None
+            out.append(chr(0x10000 + ((v - 0xD800) << 10) + (int(l, 16) - 0xDC00)))
+            i += 6
+        elif 0xDC00 <= v <= 0xDFFF:
+            return None
+        else:
+            out.append(chr(v))
+    return "".join(out)
+
+
+def unescape_generated_cases():
+    """systematic \\u spellings: braced and classic escapes at the boundaries of the scalar-value ranges, with leading zeros, alone and
+    in pairs; the expected value comes from rfc_unescape"""
+    vals = ["41", "e9", "D7FF", "D800", "DBFF", "DC00", "DFFF", "E000", "FFFF", "10000", "1F600", "10FFFF", "110000"]
+    singles = []
+    for v in vals:
+        for z in (0, 1, 4, 9):
+            singles.append("\\u{%s%s}" % ("0" * z, v))
+        singles.append("\\u{%s}" % v.lower())
+    for v in ("0041", "D7FF", "D800", "DBFF", "DC00", "DFFF", "E000", "FFFF", "d83d"):
+        singles.append("\\u%s" % v)
+    halves = ["\\uD83C", "\\uDC73", "\\u{D83C}", "\\u{DC73}", "\\u{00D83C}", "\\u0041", "\\u{41}", "\\uDBFF", "\\uDFFF", "\\uD800", "\\uDC00"]
+    pairs = [a + b for a in halves for b in halves]
+    # only spellings the grammar's escape_sequence admits reach the function (unterminated or short forms are the grammar's business)
+    for lit in singles + pairs + ["\\uD83C\\n", "x\\u{1F600}y"]:
+        yield lit, rfc_unescape(lit)
+
+
+def r_unescape(ctx, rid="C07.unescape"):
     from absint import PyIter
-    rid = "C07.unescape"
     ctx.rule(rid, "try_unescape_text decodes each escape of a text literal to the character RFC 8610 / RFC 9682 give it (simple escapes, "
                   "\\uXXXX, surrogate pairs, \\u{...}) and rejects what is no Unicode scalar value: an unpaired or wrongly paired surrogate, a "
-                  "code point above U+10FFFF, an over-long hex number (abstract evaluation of the source on a table of literals)", floor=20)
+                  "code point above U+10FFFF, an over-long hex number, a braced surrogate (which never pairs); any number of leading zeros in "
+                  "a braced escape is allowed (abstract evaluation of the source on a hand-written table plus systematically generated "
+                  "\\u spellings — boundary code points, leading zeros, all pairs of surrogate-like escapes — against an RFC oracle)", floor=200)
     f = ctx.facts
     fi = f.fn(B, "try_unescape_text")
     mod_fns = {x.name: x.node for x in f.fns(B) if x.impl_self is None and not x.in_test and x.name != "try_unescape_text"}
@@ -460,7 +529,13 @@ def r_unescape(ctx):
                 v = args[0]
                 return ("Some", ("str", chr(v))) if 0 <= v <= 0x10FFFF and not (0xD800 <= v <= 0xDFFF) else ("None",)
         return NotImplemented
+    cases = list(UNESCAPE_CASES)
+    known = {l for l, _ in cases}
+    cases += [(l, w) for l, w in unescape_generated_cases() if l not in known]
     for lit, want in UNESCAPE_CASES:
+        if rfc_unescape(lit) != want:
+            raise vf.Incomplete("oracle disagrees with the hand-written table on %r" % lit)
+    for lit, want in cases:
         it = Interp(env={"text": ("str", lit)}, on_call=on_call, max_steps=400000)
         it.resolve_fn = lambda nm: mod_fns.get(nm) if "::" not in nm else None
         try:
